@@ -359,16 +359,16 @@ def gen_cases(rng, tier):
     cases = []
     for name, (classes, rels) in FAMILIES.items():
         ss = _small_scope(classes, rels, quick)
-        cap = 36 if quick else 1500
+        cap = 16 if quick else 1500
         if len(ss) > cap:
             ss = rng.sample(ss, cap)
         for ops in ss:
             cases.append({"in": [classes, rels, ops], "kind": "small:" + name, "fam": name})
-        for _ in range(18 if quick else 500):
+        for _ in range(8 if quick else 500):
             ops = _rand_script(rng, classes, rels, rng.randint(3, 14 if quick else 40))
             cases.append({"in": [classes, rels, ops], "kind": "rand:" + name, "fam": name})
     # random schemas
-    for _ in range(120 if quick else 4000):
+    for _ in range(60 if quick else 4000):
         ncls = rng.randint(1, 3)
         classes = [-1] + [rng.choice([-1, -1, rng.randrange(k)]) for k in range(1, ncls)]
         rels = []
@@ -594,8 +594,9 @@ def impl(c):
     insess = [o for o in objs if o in sess]
     consistent = True
     rowcycle = False
+    memlinks = {}
+    tgt = {}
     try:
-        tgt = {}
         for o in insess:
             if id(o) in deleted:
                 # rows to delete: a reference cycle among them cannot be deleted without post_update either
@@ -638,6 +639,19 @@ def impl(c):
                         for y in getattr(o, "n%d" % i):
                             if id(y) in deleted or y not in sess:
                                 consistent = False
+        # every in-memory link (rows being deleted included), for the classification of a
+        # CircularDependencyError
+        for o in insess:
+            for i, (kind, a, b, fl) in enumerate(rels):
+                if kind != 0 or fl >> 2 & 1:
+                    continue
+                if fl & 1 and isinstance(o, cl[a]):
+                    t = getattr(o, "r%d" % i)
+                    if t is not None:
+                        memlinks.setdefault(id(o), set()).add(id(t))
+                if fl & 2 and isinstance(o, cl[b]):
+                    for ch in getattr(o, "c%d" % i):
+                        memlinks.setdefault(id(ch), set()).add(id(o))
         # a cycle of references over columns that are not post_update
         seen = {}
 
@@ -889,6 +903,8 @@ def impl(c):
             for r, cc, t in ref0:
                 if not (rels[cc][3] >> 2 & 1):
                     both.setdefault(oid[r], set()).add(oid[t])
+            for k_, v_ in memlinks.items():
+                both.setdefault(k_, set()).update(v_)
             seen2 = {}
 
             def dfs2(n):
@@ -900,8 +916,8 @@ def impl(c):
                 return False
 
             stale_cycle = any(dfs2(n) for n in list(both) if n not in seen2)
-    except Exception:
-        pass
+    except Exception as e:
+        _last["stale_err"] = repr(e)
     _last.update(err=err, consistent=consistent, rowcycle=rowcycle, unsupported=unsupported, trace=trace,
                  stale_cycle=stale_cycle, items=items, ref0=ref0, snap=snap, rels=rels, classes=classes)
     if "sts" not in snap:
@@ -925,7 +941,9 @@ def model_pair(c, obs):
         mi = [deps, sts, links, ref0, [], sec0, [], nn, [], 0]
         return mi, [1, cyc, items, edges]
     if not ok or ref1 is None:
-        mi = [deps, sts, links, ref0, [], sec0, [], nn, [], 0]
+        # the flush failed in an early layer (sort_as_subsets is a generator: a CircularDependencyError of
+        # the plan would only have been raised later): the outcome of the sort is not compared
+        mi = [deps, sts, links, ref0, [], sec0, [], nn, [], 3]
         return mi, [0, cyc, items, edges]
     mode = 2 if fam in IN_GUARD else 1
     mi = [deps, sts, links, ref0, ref1, sec0, sec1, nn, tr, mode]
